@@ -261,7 +261,7 @@ def _classify_batch(a, clause, detail):
 
 def _table_rec(cols, summary_cols):
   ns = types.SimpleNamespace
-  return ns(columns=[ns(colId=c) for c in cols],
+  return ns(columns=[ns(colId=c) for c in cols], summarySourceTable=None,
             summaryTables=[ns(columns=[ns(colId=c) for c in sc]) for sc in summary_cols])
 
 
@@ -312,7 +312,8 @@ def _monitor_base():
 
 AWKWARD = ["n", "N", "s", "S", "class", "Class", "None", "none", "id", "ID", "1a", "_u", "é", "E", "e",
            "New Col", "new_col", "NEW COL", "", "a", "A", "a2", "A2", "manualSort", "MANUALSORT", "group",
-           "Table1", "table1", "if", "If", KELVIN, "k", "ß", "x y", "x_y", "X  Y", "True", "T", "c"]
+           "Table1", "table1", "if", "If", KELVIN, "k", "ß", "x y", "x_y", "X  Y", "True", "T", "c",
+           "cat", "CAT", "Tags", "count", "COUNT"]
 
 
 class IdentMonitor(_monitor_base()):
@@ -335,7 +336,7 @@ class IdentMonitor(_monitor_base()):
       cols = [{"id": rng.choice(AWKWARD), "type": "Text", "isFormula": False}
               for _ in range(rng.randint(0, 3))]
       return [["AddTable", rng.choice(AWKWARD + [None]), cols]]
-    t = rng.choice(tabs if rng.random() < 0.2 else data)
+    t = rng.choice(tabs if rng.random() < 0.35 else data)
     cols = [c[0] for c in eng.schema_columns(e, t) if c[0] not in ("id", "manualSort")]
     if r < 0.40:
       return [["AddColumn", t, rng.choice(AWKWARD + [None]),
@@ -416,7 +417,8 @@ def main():
     "in a batch, a valid unused name must be kept unless another id of the same batch took it",
     "frame clause C21.avoid_untouched (the caller's avoid set is not modified) comes from the code's "
     "call sites, not from the statement",
-    "_pick_col_name is called with namespaces offering .columns[*].colId / .summaryTables[*].columns",
+    "_pick_col_name is called with namespaces offering .columns[*].colId / .summaryTables[*].columns "
+    "/ .summarySourceTable=None (a non-summary table); summary tables are covered at engine level",
     common.SHIM_ASSUMPTION,
   ]
   nn = len(names(tier, common.seed()))
@@ -460,6 +462,23 @@ def main():
   from vlib.rtc import explore
   explore.explore(rep, "checks.C21", "IdentMonitor", n_quick=32, n_thorough=3000,
                   budget_quick_s=10, budget_thorough_s=300)
+  # directed histories (fixed; found by the thorough tier, kept so that every run re-examines them)
+  directed = [("summary", [[["RenameColumn", "A_summary", "count", "CAT"]]]),
+              ("summary", [[["RenameColumn", "A", "tags", "New Col"]],
+                           [["UpdateRecord", "_grist_Tables_column", 14, {"colId": "new_col"}]]])]
+  mon = IdentMonitor()
+  for seed_name, hist in directed:
+    try:
+      failures, stats, history = explore.run_history(mon, seed_name, hist)
+    except Exception as e:
+      rep.crash("directed history failed to run: %r" % (e,))
+      continue
+    rep.coverage["evaluations"] = rep.coverage.get("evaluations", 0) + stats["bundles"]
+    for f in failures:
+      rep.violation(f["clause"], {"obligation": f["clause"], "class": f["class"], "seed_doc": seed_name,
+                                  "history": history, "detail": f["detail"], "tier": "bounded",
+                                  "how_to_replay": "apply SEEDS[seed_doc] then `history` on a fresh engine"})
+  rep.coverage["directed_histories"] = len(directed)
   rep.coverage["exhaustive"] = False
   rep.coverage["exhaustive_part"] = ("the small-string space, the keyword spellings, the <=3 batches "
                                      "and the _pick_col_name grid are enumerated completely; random "
